@@ -217,6 +217,10 @@ CORPUS = [
     ("generic-null-argument", "Box<T>: !record\n  fields:\n    v: T\nZ: !generic {name: Box, args: [null]}\n", None),
     ("null-only-union-case", "Zz: [[null], float]\nYy: !union {a: [null], b: float}\nXx: [[null], [null]]\n", None),
     ("empty-definitions", "E: !enum\nR: !record\nP: !protocol\nA:\n", None),
+    ("empty-subscript", "R: !record\n  fields:\n    v: int*3\n    w: int*\n    m: string->int\n    d: !array {items: int}\n    x: !array {items: int, dimensions: 2}\n"
+                        "  computedFields:\n    c1: v[]\n    c2: w[]\n    c3: m[]\n    c4: d[]\n    c5: x[]\n", None),
+    ("tagged-versions-node", "R: int\n", "namespace: Fz\nversions: !!map [a]\n"),
+    ("tagged-imports-node", "R: int\n", "namespace: Fz\nimports: !!seq {a: b}\n"),
 ]
 
 
@@ -234,6 +238,12 @@ INT_YAML = ["V: !vector {{items: int, length: {n}}}", "A: !array {{items: int, d
             "E: !flags\n  values:\n    a: {n}", "E: !flags\n  base: uint64\n  values:\n    a: {n}\n    b:", "E: !enum\n  values:\n    a: {n}\n    b:\n    c:"]
 
 
+# argument lists of every arity (none, one, too many) in every position that takes one
+ARITY_EXPRESSIONS = [t.format(a=a) for t in ("x[{a}]", "y[{a}]", "d[{a}]", "v[{a}]", "w[{a}]", "m[{a}]", "km[{a}]", "s[{a}]", "a[{a}]", "size({a})", "size(x, {a})", "dimensionIndex({a})",
+                                              "dimensionIndex(x, {a})", "dimensionCount({a})", "nope({a})")
+                     for a in ("", "0", "0, 0", "0, 0, 0", "p: 0", "p: 0, q: 0", "q: 0, p: 0", "p: 0, 0", "'p'", "x", "a, a")]
+
+
 def boundary_cases(rng, sc, quick):
     """boundary integers in every position where the front end reads one (directed: all positions x all values on every tier)"""
     man = "namespace: Fz\n"
@@ -248,6 +258,9 @@ def boundary_cases(rng, sc, quick):
                 ex = tmpl.format(n=sign + str(n), h=format(n, "x"))
                 k += 1
                 yield Case("boundary:expression", sc.path(f"bnd{k}/pkg"), {"model.yml": rec + q(ex) + "\n"}, man)
+    for ex in ARITY_EXPRESSIONS:
+        k += 1
+        yield Case("boundary:arity", sc.path(f"bnd{k}/pkg"), {"model.yml": rec + q(ex) + "\n"}, man)
     for tmpl in INT_YAML:
         for n in BOUNDARY:
             for sign in ("", "-"):
@@ -413,7 +426,8 @@ def manifest_case(rng, root, text):
     if m == "garbage":
         man = bytes(rng.randrange(256) for _ in range(rng.choice([1, 20, 300])))
     elif m == "wrong-types":
-        man = "namespace: " + rng.choice(["3", "[a]", "{a: b}", "null", '""', "true"]) + "\nimports: " + rng.choice(["5", "{a: b}", "[[x]]", "x"]) + "\nversions: " + rng.choice(["[a]", "x", "{v: [1]}", "{1: 2}"]) + "\n"
+        man = ("namespace: " + rng.choice(["3", "[a]", "{a: b}", "null", '""', "true", "!!str [a]", "!!map x"]) + "\nimports: " + rng.choice(["5", "{a: b}", "[[x]]", "x", "!!seq {a: b}", "!!seq x", "[!!str [a]]"])
+               + "\nversions: " + rng.choice(["[a]", "x", "{v: [1]}", "{1: 2}", "!!map [a]", "!!map [a, b]", "!!map x", "{v: !!str [a]}", "{!!str [a]: b}"]) + "\n")
     elif m == "missing-import":
         man = "namespace: Fz\nimports:\n  - ../nowhere\n  - " + rng.choice(["/dev/null", "https://example.invalid/x", "git@x:y", "", "."]) + "\n"
     elif m == "self-import":
